@@ -21,8 +21,10 @@ def sh(cmd, cwd=None, timeout=3000):
     return p.returncode, p.stdout.decode("utf-8", "replace")
 
 
-def confirm(prop, x):
-    wt = "/tmp/wt/%s" % prop
+def confirm(wtname, x, prop=None, sid=None):
+    wt = "/tmp/wt/%s" % wtname
+    prop = prop or wtname[:3]
+    sid = sid or "%s-%s" % (wtname, x)
     sd = os.path.join(wt, "_seed", x)
     assert sh("git status --porcelain -- btc_hd_wallet", wt)[1].strip() == "", "worktree not clean"
     rc0, out0 = sh("%s _seed/%s/demo.py" % (PY, x), wt)
@@ -34,15 +36,15 @@ def confirm(prop, x):
     finally:
         sh("git checkout -- btc_hd_wallet", wt)
     ok = rc0 == 0 and rc1 != 0 and "124 passed" in outt
-    print(json.dumps({"seed": "%s-%s" % (prop, x), "demo_without": rc0, "tests_with": outt.strip()[-60:], "demo_with": rc1, "confirmed": ok}))
+    print(json.dumps({"seed": sid, "demo_without": rc0, "tests_with": outt.strip()[-60:], "demo_with": rc1, "confirmed": ok}))
     if ok:
-        dst = os.path.join(SEEDED, "%s-%s" % (prop, x))
+        dst = os.path.join(SEEDED, sid)
         os.makedirs(dst, exist_ok=True)
         for f in ("patch.diff", "demo.py", "notes.txt"):
             shutil.copy(os.path.join(sd, f), os.path.join(dst, f))
         meta = {"property": prop, "needs": open(os.path.join(sd, "notes.txt")).read().strip(),
                 "confirmed": {"tests_with_patch": outt.strip(), "demo_with_patch_exit": rc1, "demo_without_patch_exit": rc0,
-                              "how": "git apply in scratch worktree /tmp/wt/%s; pytest (124 pass); demo.py; git checkout" % prop},
+                              "how": "git apply in scratch worktree /tmp/wt/%s; pytest (124 pass); demo.py; git checkout" % wtname},
                 "checks": {}}
         mp = os.path.join(dst, "meta.json")
         if os.path.exists(mp):
@@ -51,8 +53,14 @@ def confirm(prop, x):
     return ok
 
 
+REPO = os.environ.get("SEED_REPO", "/dev/shm/seedrepo")      # scratch clone; /repo itself is not edited
+
+
 def run(ids):
-    assert sh("git -C /repo status --porcelain")[1].strip() == "", "repo tree not clean"
+    if not os.path.isdir(REPO):
+        sh("git clone -q /repo %s" % REPO)
+    sh("git -C %s fetch -q origin && git -C %s reset -q --hard origin/main" % (REPO, REPO))
+    assert sh("git -C %s status --porcelain" % REPO)[1].strip() == "", "scratch repo not clean"
     for d in sorted(os.listdir(SEEDED)):
         if ids and d not in ids and d.split("-")[0] not in ids:
             continue
@@ -60,22 +68,22 @@ def run(ids):
         meta = json.load(open(mp))
         prop = meta["property"]
         try:
-            rc, out = sh("git -C /repo apply %s" % os.path.join(SEEDED, d, "patch.diff"))
+            rc, out = sh("git -C %s apply %s" % (REPO, os.path.join(SEEDED, d, "patch.diff")))
             if rc != 0:
                 print(d, "patch does not apply", out)
                 continue
             t0 = time.time()
-            rc, out = sh("./check %s --tier quick" % prop, VERIF)
+            rc, out = sh("VERIF_REPO=%s ./check %s --tier quick" % (REPO, prop), VERIF)
             first = [l for l in out.splitlines() if l.startswith(("VIOLATION", "MACHINERY"))][:1]
             meta["checks"][prop + "-quick"] = {"exit": rc, "seconds": round(time.time() - t0), "first_line": first[0][:300] if first else ""}
             print(json.dumps({"seed": d, "exit": rc, "s": round(time.time() - t0), "first": (first[0][:200] if first else "")}))
         finally:
-            sh("git -C /repo checkout -- .")
+            sh("git -C %s checkout -- ." % REPO)
         json.dump(meta, open(mp, "w"), indent=1)
 
 
 if __name__ == "__main__":
     if sys.argv[1] == "confirm":
-        confirm(sys.argv[2], sys.argv[3])
+        confirm(sys.argv[2], sys.argv[3], *(sys.argv[4:6]))
     else:
         run(sys.argv[2:])
